@@ -28,11 +28,11 @@ def run(tier, seed, selftest=False, replay=None):
     if replay:
         cs = read_json(os.path.join(replay, "case.json"))["case"]
         lang, sd = cs["id"].split("/")[0], int(cs["id"].split("/")[1])
-        hists = [[{"tr": s["tr"], "prog": s["prog"]} for s in cs["steps"]]]
+        hists = [[{"op": s["op"], "tr": s["tr"], "prog": s["prog"]} for s in cs["steps"]]]
         jobs = [(lang, [sd])]
     else:
         if tier == "quick":
-            gens = parallel(lambda f: f(), [lambda: gen(2), lambda: gen(4, 120, seed), lambda: gen(6, 120, seed + 1)])
+            gens = parallel(lambda f: f(), [lambda: gen(2), lambda: gen(4, 80, seed), lambda: gen(6, 60, seed + 1)])
             nseeds = 1
         else:
             gens = parallel(lambda f: f(), [lambda: gen(3), lambda: gen(6, 1500, seed), lambda: gen(9, 500, seed + 1)])
@@ -81,7 +81,7 @@ def run(tier, seed, selftest=False, replay=None):
             for step, cl in j["bad"]:
                 c = tr[j["case"]]
                 verdict.add(cl, c, "clause %s at step %d of translation history %s: %s" % (
-                    cl, step, c["id"], [(s["tr"], s["prog"]) for s in c["steps"]]))
+                    cl, step, c["id"], [(s["op"], s["tr"], s["prog"]) for s in c["steps"]]))
     rc = verdict.finish()
     write_evidence(PID, tier, seed, "model_checking", {
         "states": sum(g.distinct for g in gens) + sum(v.distinct for v in vals), "transitions": sum(g.generated for g in gens) + sum(v.generated for v in vals),
@@ -89,9 +89,10 @@ def run(tier, seed, selftest=False, replay=None):
         "samples": [sample],
         "evaluations": steps, "distinct_nontrivial": len(hists),
         "rule": "TLC enumerates every history of <= %d translation calls over {reused translator, reused translator of another language, fresh "
-                "translator} x {generated program, its erasure, its overwriting, another program} and random histories up to length %d; each "
+                "translator} x {generated program, its erasure, its overwriting, another program}, interleaved with in-place mutations of a program "
+                "object (the pipeline's own erasure / overwriting), and random histories up to length %d; each "
                 "history is executed for %d base program(s) per language with the real translators; per call the text digest and the pickle "
-                "snapshot of the program before/after are recorded and validated (Functional, ProgramUnchanged, NoException). "
+                "snapshot of the program before/after are recorded (every call through the reused translator is followed by a reference call through a fresh one) and validated (Functional, ProgramUnchanged, NoException). "
                 "evaluations = translation calls, distinct = distinct histories" % (2 if tier == "quick" else 3, 6 if tier == "quick" else 9,
                                                                                  2 if tier == "quick" else 10),
         "exhaustive": False,
@@ -102,7 +103,7 @@ def run(tier, seed, selftest=False, replay=None):
 
 def selftest_run(path):
     data = read_json(path)
-    c = next(x for x in data["cases"] if len(x["steps"]) >= 2 and x["steps"][0]["tr"] != "B" and
+    c = next(x for x in data["cases"] if len(x["steps"]) >= 2 and all(s["op"] == "tr" for s in x["steps"]) and x["steps"][0]["tr"] != "B" and
              any(s["tr"] != "B" and s["prog"] == x["steps"][0]["prog"] for s in x["steps"][1:]))
     c["steps"][0]["text"] = "deadbeef0000"
     p2 = write_json(path + ".corrupt.json", data)
